@@ -165,6 +165,22 @@ fn u(n: &J, k: &str) -> u32 {
     n[k].as_u64().unwrap_or(0) as u32
 }
 
+/// Creates the leaves (symbols, literals) of a node table in REVERSE table order, so that a following `import` meets
+/// them with references whose order is the opposite of the table order (nothing may depend on reference order).
+pub fn precreate_leaves_reversed(ctx: &mut Context, nodes: &J) {
+    for n in nodes.as_array().unwrap().iter().rev() {
+        match n["op"].as_str().unwrap() {
+            "bvsym" => { ctx.bv_symbol(n["name"].as_str().unwrap(), u(n, "w")); }
+            "arrsym" => { ctx.array_symbol(n["name"].as_str().unwrap(), u(n, "iw"), u(n, "dw")); }
+            "bvlit" => { ctx.bv_lit(&from_bits(&n["bits"])); }
+            _ => {}
+        }
+    }
+}
+
+/// deterministic coin per node table (half of the inputs get the reversed leaf order)
+pub fn ctx_parity_odd(nodes: &J) -> bool { nodes.as_array().map(|a| a.len() % 2 == 1).unwrap_or(false) }
+
 /// Builds a node table inside `ctx` through the public builder API. Returns one ref per node.
 pub fn import(ctx: &mut Context, nodes: &J) -> Vec<ExprRef> {
     let mut refs: Vec<ExprRef> = vec![];
